@@ -155,7 +155,7 @@ PROJECTIONS = {
     "feemult": proj_by_op({"seal": ("fm",), "fm": ("all",), "next": ("fm",), "block": ("fm",)}, default=("none",)),
     "coins_after_batch": proj_by_op({"batch": ("coins", "extra"), "genesis": ("coins",), "fab": ("coins",)}, default=("none",)),
     "batch_all": proj_by_op({"batch": ("coins", "counts", "extra", "fp", "tips", "fm", "ds", "stakes", "txs"), "block": ("status",)}, default=("none",)),
-    "fees": proj_by_op({"batch": ("fp", "tips"), "seal": ("fp", "tips", "coins"), "w": ("all",), "txlen": ("all",)}, default=("none",)),
+    "fees": proj_by_op({"batch": ("fp", "tips"), "seal": ("fp", "tips", "coins"), "w": ("all",), "txlen": ("all",), "txenc": ("all",)}, default=("none",)),
     "settlement": proj_by_op({"seal": ("coins", "pools", "pools_n")}, default=("none",)),
     "pools": proj_by_op({"seal": ("pools", "pools_n"), "next": ("pools", "pools_n")}, default=("none",)),
     "stakes": proj_by_op({"batch": ("stakes",), "next": ("stakes",), "block": ("stakes",), "confirm": ("all",), "sdoc": ("all",)}, default=("none",)),
